@@ -1,12 +1,17 @@
 package headers
 
 import (
+	"errors"
 	"fmt"
 	"log/slog"
+	"math"
 	"strconv"
 	"strings"
 	"time"
 )
+
+// The longest lifetime that can be expressed as a time.Duration, in seconds.
+const maxAgeSeconds = int64(math.MaxInt64 / int64(time.Second))
 
 type cacheControl struct {
 	noCache bool
@@ -24,8 +29,16 @@ func parseCacheControl(ccHeader string) (cacheControl, error) {
 		} else if after, ok := strings.CutPrefix(directive, "max-age="); ok {
 			// max-age directive specifies the maximum amount of time a response is considered fresh in seconds.
 			maxAge, err := strconv.ParseInt(after, 10, 64)
+			if err != nil && errors.Is(err, strconv.ErrRange) && !strings.HasPrefix(after, "-") {
+				// More seconds than fit: as good as forever (RFC 9111 section 1.2.2)
+				maxAge, err = maxAgeSeconds, nil
+			}
 			if err != nil {
 				return cacheControl{}, fmt.Errorf("%w: %v", ErrParseMaxAge, err)
+			}
+			if maxAge > maxAgeSeconds {
+				// Scaled to a Duration a larger value would wrap around and a long lifetime would turn into none
+				maxAge = maxAgeSeconds
 			}
 			if maxAge < 1 {
 				cc.noCache = true // If max-age is less than 1, treat it as no-cache
